@@ -90,6 +90,7 @@ func (g *Gen) spec(k int) Spec {
 		HasP: r.Intn(100) < 70, X: valsX[pick(len(valsX))], W: hexs(valsW[pick(len(valsW))]),
 		HasQ: r.Intn(100) < 50, D: valsD[pick(len(valsD))],
 		Flag: r.Intn(2) == 0, L: r.Intn(4) - 1, M: r.Intn(4) - 1,
+		TmZero: r.Intn(100) < 6,
 	}
 	if g.p.CaseHeavy {
 		sp.S = hexs(valsCase[r.Intn(len(valsCase))])
@@ -129,12 +130,28 @@ func (g *Gen) pickK(newBias int) int {
 		return k
 	}
 	ks := make([]int, 0, len(g.usedK))
-	for k := 1; k <= g.p.MaxK+4; k++ {
+	for k := 1; k <= g.p.MaxK+8; k++ {
 		if g.usedK[k] {
 			ks = append(ks, k)
 		}
 	}
+	if len(ks) == 0 {
+		return 1
+	}
 	return ks[g.r.Intn(len(ks))]
+}
+
+// foreignK: an identity for a file ADDED by another tool — never one that exists already
+// (C11 quantifies over added and removed files, not over files modified behind the index)
+func (g *Gen) foreignK() int {
+	for try := 0; try < 8; try++ {
+		k := g.p.MaxK + 2 + g.r.Intn(6)
+		if !g.usedK[k] {
+			g.usedK[k] = true
+			return k
+		}
+	}
+	return 0
 }
 
 func castOf(path string) string { return leaves[leafIndex(path)].Cast }
@@ -402,7 +419,23 @@ func asyncHistory(p *Profile, seed int64) []Op {
 				g.add(Op{Op: "del", K: 1 + r.Intn(6)}) // possibly while its write is pending
 			}
 		}
-		switch r.Intn(6) {
+		switch r.Intn(7) {
+		case 6:
+			// asynchronous writes switched off and on again on the live handle: the flusher must be back
+			off := Op{Op: "create", Cons: g.cons, Ext: ".json", Cache: r.Intn(2) == 0}
+			g.add(off)
+			g.add(Op{Op: "sleep", Ms: 250})
+			g.add(Op{Op: "tick", N: 2})
+			g.add(Op{Op: "create", Cons: g.cons, Ext: ".json", Cache: r.Intn(2) == 0, AThr: thr, AMs: ms})
+			k := 1 + r.Intn(6)
+			g.usedK[k] = true
+			for i := 0; i < thr && i < 6; i++ {
+				sp := g.spec(1 + (k+i)%6)
+				g.usedK[1+(k+i)%6] = true
+				g.add(Op{Op: "ins", Spec: &sp})
+			}
+			quiesce()
+			observe()
 		case 0:
 			g.add(Op{Op: "flushall"})
 			observe()
@@ -675,6 +708,17 @@ func History(p *Profile, seed int64) []Op {
 		case "reshape":
 			g.add(Op{Op: "close"})
 			g.add(Op{Op: "reshape", N: uint64(r.Intn(3))})
+			if r.Intn(2) == 0 {
+				// … and the directory does not match the index either (stray file / missing file)
+				if r.Intn(2) == 0 {
+					if k := g.foreignK(); k != 0 {
+						sp := g.spec(k)
+						g.add(Op{Op: "addfile", Spec: &sp})
+					}
+				} else {
+					g.add(Op{Op: "rmfile", K: g.pickK(5)})
+				}
+			}
 			g.add(Op{Op: "reopen"})
 			g.sids = nil
 			// every kind of call must be refused
@@ -684,6 +728,11 @@ func History(p *Profile, seed int64) []Op {
 			g.add(Op{Op: "count"})
 			g.add(Op{Op: "del", K: g.pickK(10)})
 			g.add(g.createOp())
+			sp2 := g.spec(g.pickK(50))
+			g.add(Op{Op: "ins", Spec: &sp2})
+			g.add(Op{Op: "count"})
+			g.add(Op{Op: "repair"})
+			g.add(Op{Op: "count"})
 			g.add(Op{Op: "ls"})
 			g.add(Op{Op: "reshape", N: 99}) // restore
 			g.add(Op{Op: "reopen"})
@@ -694,10 +743,10 @@ func History(p *Profile, seed int64) []Op {
 			case 2:
 				// one to three files written by another tool (several unindexed files in one Repair)
 				for j := 0; j <= r.Intn(3); j++ {
-					k := g.p.MaxK + 2 + r.Intn(5)
-					g.usedK[k] = true
-					sp := g.spec(k)
-					g.add(Op{Op: "addfile", Spec: &sp})
+					if k := g.foreignK(); k != 0 {
+						sp := g.spec(k)
+						g.add(Op{Op: "addfile", Spec: &sp})
+					}
 				}
 			case 3:
 				g.add(Op{Op: "close"})
@@ -814,5 +863,5 @@ var profiles = map[string]*Profile{
 	// C18: layout
 	"layout": {Name: "layout", Len: [2]int{8, 30}, MaxK: 8, PIndex: 35, PUnique: 8, PUpper: 10, PLower: 10,
 		PCache: 40, PAsync: 30, PGz: 50, PLowerDir: 50, PExt: 50, SweepEvery: 0, NoHostile: true,
-		Weights: map[string]int{"ins": 35, "many": 6, "bulk": 3, "del": 10, "sdel": 2, "search": 2, "reopen": 8, "flush": 6, "ls": 20}},
+		Weights: map[string]int{"ins": 35, "many": 6, "bulk": 3, "del": 10, "sdel": 2, "search": 2, "reopen": 8, "flush": 6, "ls": 20, "recreate": 6, "get": 6}},
 }
